@@ -14,10 +14,18 @@
    append A, append A, append "A:1"  ->  A:1, A:2, A:1.  For that multiset the statement's own
    clauses (number the duplicates :1..:n / leave unique names untouched / pairwise distinct)
    cannot all hold; this is the known finding "suffix-clash".  What is proved
-   (C13_*_partial) excludes exactly that class by the hypothesis no_suffix_clash: among the
+   (C13_*_partial) excludes that class by the hypothesis no_suffix_clash: among the
    mnemonics in play none is literally the useful form of another (or of itself) followed by
-   a generated suffix ":<k>".  Nothing else is missing: the theorems hold for operation
-   sequences of any length, sections of any size, both comparison modes.
+   a generated suffix ":<k>", FOR ANY k.  This hypothesis is a SUPERSET of the clash class
+   (audit C6), not exactly it: it also rejects harmless histories in which the literal suffix
+   can never be generated -- append A, A:7, B, B has keys A, A:7, B:1, B:2, every clause of the
+   statement holds, yet no_suffix_clash fails (C13_ex_clash_superset) and the _partial
+   theorems are silent there.  Bounding k by the reachable size of the group of u would
+   tighten it; that is not done.  Otherwise nothing is missing: the theorems hold for
+   operation sequences of any length, sections of any size, both comparison modes.
+   WHICH suffix an item carries is fixed by C13_numbering_insert / _append / _replace /
+   _delete / _assign_all and, on histories without delete / replace, by the closed form
+   C13_keys_closed_form_partial (block D8 at the end of the file).
 
    Not expressible here: object aliasing (the same item object inserted twice, or living in
    two sections) -- the model has value semantics; and renaming an item that is inside a
@@ -141,7 +149,11 @@ Theorem C13_read_names : forall tr l,
   keys (read_section tr l) = spec_keys tr (List.map a_mnem l) /\ origs (read_section tr l) = List.map a_mnem l.
 Proof. exact read_names. Qed.
 
-(* write() emits the originals; reading those again assigns the same session names *)
+(* PREMISE (not proved here): the second file's mnemonics l2 ARE the originals of the first read, i.e. write()
+   emitted `original_mnemonic` for every item and those lines parsed back to the same names -- that is the business
+   of the writer model / C03's round trip (Props/C03.v) and of the correspondence, and it is the hypothesis
+   `List.map a_mnem l2 = origs (read_section tr l)` below.  CONCLUSION: under that premise reading l2 assigns the
+   same session names and the same originals again. *)
 Theorem C13_roundtrip_names : forall tr l l2,
   List.map a_mnem l2 = origs (read_section tr l) ->
   keys (read_section tr l2) = keys (read_section tr l) /\ origs (read_section tr l2) = origs (read_section tr l).
@@ -239,3 +251,118 @@ Print Assumptions C13_assign_current.
 Print Assumptions C13_append_current.
 Print Assumptions C13_insert_current.
 Print Assumptions C13_set_item_current.
+
+(* ==== BEGIN block (audit D8 / C6): which suffix -- numbering after replace / delete / assign_all, closed form of the
+   session names on histories; no_suffix_clash is a superset of the clash class ==== *)
+Require Import KeysClosedForm.
+Open Scope N_scope.
+
+(* ---- numbering after a replacement: as after an insertion, for the list with position p replaced ----------
+   s[k] = item replaces the first item whose session name matches k (or position k for an int key) and re-numbers
+   the group of the NEW item; an absent str key appends.  The group the replaced item belonged to is NOT re-numbered
+   (its members keep their suffixes: C13_ex_replace_stale). *)
+Theorem C13_numbering_replace : forall s k a s', set_item s k (make a) = IOk s' ->
+  (exists p, (p < List.length (items s))%nat /\
+     forall n it', nth_error (items s') n = Some it' ->
+       exists it, nth_error (replace_at p (make a) (items s)) n = Some it /\ payload it' = payload it /\
+                  sess it' = numbered (transforms s) (useful (make a)) (replace_at p (make a) (items s)) n it)
+  \/ s' = append s (make a).
+Proof. exact numbering_replace. Qed.
+
+(* ---- deletion never re-numbers: the remaining session names are the old ones (stale suffixes stay; the statement
+   asks for numbering "after each insertion" only) *)
+Theorem C13_numbering_delete : forall s k s', delitem s k = IOk s' ->
+  exists p, lookup_ix s k = IOk p /\ items s' = remove_at p (items s) /\ keys s' = remove_at p (keys s).
+Proof. exact numbering_delete. Qed.
+
+(* ---- assign_duplicate_suffixes(None) (what set_data runs after renaming every curve): on items whose session
+   name is the useful mnemonic the result is the closed form of the names; payloads untouched *)
+Theorem C13_numbering_assign_all : forall s, (forall it, In it (items s) -> sess it = useful it) ->
+  keys (assign_all s) = spec_keys (transforms s) (origs s) /\ origs (assign_all s) = origs s /\
+  List.map payload (items (assign_all s)) = List.map payload (items s).
+Proof. exact numbering_assign_all. Qed.
+
+(* ... and it is the identity on the session names of a section that is already in closed form *)
+Theorem C13_numbering_assign_all_canon : forall s, keys s = spec_keys (transforms s) (origs s) ->
+  keys (assign_all s) = spec_keys (transforms s) (origs s).
+Proof. exact numbering_assign_all_canon. Qed.
+
+(* ---- closed form of the session names on histories -----------------------------------------------------------
+   spec_keys tr names: a name whose group (matching useful mnemonics) has one member shows its useful form (UNKNOWN
+   for a blank), the j-th member of a larger group shows <useful>:<j>.  It is a function of the ORIGINAL names
+   alone.  It holds after every history of append / insert / get(add=True) / plain value assignment from the empty
+   section -- with NO exclusion (no_suffix_clash is not needed: with A, A, "A:1" both sides are A:1, A:2, A:1).
+   PARTIAL: delete and replace are excluded, and must be: they do not re-number the group they take a member from
+   (C13_ex_delete_stale), so after them the session names are no function of the names alone. *)
+Theorem C13_keys_closed_form_partial : forall ops tr, forallb igrows ops = true ->
+  let s := fold_left step ops (empty_section tr) in keys s = spec_keys tr (origs s).
+Proof. exact items_keys_closed_form. Qed.
+
+(* the closed form is kept by inserting a fresh item anywhere *)
+Theorem C13_closed_form_insert : forall tr names s i x, canon tr names s -> sess x = useful x ->
+  canon tr (py_insert i (orig x) names) (insert s i x).
+Proof. exact canon_insert. Qed.
+
+Theorem C13_closed_form_keys : forall tr names s, canon tr names s -> keys s = spec_keys tr names.
+Proof. exact canon_keys. Qed.
+
+(* ---- non-vacuity ----------------------------------------------------------------------------------------------- *)
+Definition ex_grow : list op :=
+  [OpAppend (hdr "A"); OpAppend (hdr "B"); OpInsert 0 (hdr "a"); OpGetAdd (s2l "C") (s2l "d"); OpInsert 1 (hdr "");
+   OpSetValue (KInt 0) (s2l "v"); OpAppend (hdr " "); OpInsert (-1) (hdr "A"); OpAppend (hdr "A:1")].
+Example C13_ex_closed_form :
+  forallb igrows ex_grow = true /\
+  keys (fold_left step ex_grow (empty_section true))
+  = [s2l "a:1"; s2l "UNKNOWN:1"; s2l "A:2"; s2l "B"; s2l "C"; s2l "A:3"; s2l "UNKNOWN:2"; s2l "A:1"] /\
+  spec_keys true (origs (fold_left step ex_grow (empty_section true)))
+  = keys (fold_left step ex_grow (empty_section true)) /\
+  ~ no_suffix_clash true (flat_map op_names ex_grow).
+Proof.
+  split; [reflexivity|]. split; [vm_compute; reflexivity|]. split; [vm_compute; reflexivity|].
+  intro H. specialize (H (s2l "A") (s2l "A:1") 1%nat). vm_compute in H.
+  specialize (H ltac:(tauto) ltac:(tauto)). discriminate.
+Qed.
+(* deletion leaves a stale suffix: A, A -> A:1, A:2; del A:1 -> [A:2], the closed form of [A] is [A] *)
+Example C13_ex_delete_stale :
+  let s := fold_left step [OpAppend (hdr "A"); OpAppend (hdr "A"); OpDelete (KStr (s2l "A:1"))] (empty_section false) in
+  keys s = [s2l "A:2"] /\ spec_keys false (origs s) = [s2l "A"].
+Proof. vm_compute. split; reflexivity. Qed.
+(* replacement re-numbers the group of the new item only: A:1, A:2, B; s["A:1"] = B' -> B:1, A:2, B:2 *)
+Example C13_ex_replace_stale :
+  let s := fold_left step [OpAppend (hdr "A"); OpAppend (hdr "A"); OpAppend (hdr "B"); OpReplace (KStr (s2l "A:1")) (hdr "B")]
+                     (empty_section false) in
+  keys s = [s2l "B:1"; s2l "A:2"; s2l "B:2"] /\ spec_keys false (origs s) = [s2l "B:1"; s2l "A"; s2l "B:2"].
+Proof. vm_compute. split; reflexivity. Qed.
+Example C13_ex_numbering_replace :
+  exists s', set_item (read_section false [hdr "A"; hdr "B"; hdr "A"]) (KStr (s2l "B")) (make (hdr "A")) = IOk s' /\
+             keys s' = [s2l "A:1"; s2l "A:2"; s2l "A:3"].
+Proof. eexists. split; vm_compute; reflexivity. Qed.
+Example C13_ex_assign_all :
+  keys (assign_all (mkSection [make (hdr "A"); make (hdr ""); make (hdr "A"); make (hdr "B")] false))
+  = [s2l "A:1"; s2l "UNKNOWN"; s2l "A:2"; s2l "B"].
+Proof. vm_compute. reflexivity. Qed.
+
+(* no_suffix_clash is a SUPERSET of the clash class (audit C6): it fails for A, A:7, B, B although every clause
+   of the statement holds there (keys A, A:7, B:1, B:2 are pairwise distinct) -- the _partial theorems are silent
+   on such harmless histories *)
+Example C13_ex_clash_superset :
+  let ops := [OpAppend (hdr "A"); OpAppend (hdr "A:7"); OpAppend (hdr "B"); OpAppend (hdr "B")] in
+  ~ no_suffix_clash false (flat_map op_names ops) /\
+  keys (fold_left step ops (empty_section false)) = [s2l "A"; s2l "A:7"; s2l "B:1"; s2l "B:2"] /\
+  I1 (fold_left step ops (empty_section false)).
+Proof.
+  split; [|split].
+  - intro H. specialize (H (s2l "A") (s2l "A:7") 7%nat). vm_compute in H.
+    specialize (H ltac:(tauto) ltac:(tauto)). discriminate.
+  - vm_compute. reflexivity.
+  - apply I1_forms. unfold I1_nodup. vm_compute. repeat constructor; cbn; intuition discriminate.
+Qed.
+
+Print Assumptions C13_numbering_replace.
+Print Assumptions C13_numbering_delete.
+Print Assumptions C13_numbering_assign_all.
+Print Assumptions C13_numbering_assign_all_canon.
+Print Assumptions C13_keys_closed_form_partial.
+Print Assumptions C13_closed_form_insert.
+Print Assumptions C13_closed_form_keys.
+(* ==== END block (audit D8 / C6) ==== *)
